@@ -1571,6 +1571,8 @@ def main_tz():
                 nm = n2.get("referencedDecl", {}).get("name")
                 if nm in self.names:
                     return ident(nm)
+                if nm in getattr(self, "temps", {}):
+                    return self.temps[nm]          # a local `const int x = <count expression>;` stands for its value
                 raise Untranslatable("name %s in a count expression" % nm)
             if k == "UnaryOperator" and n2.get("opcode") == "-":
                 return "(- %s)" % self.tr(ks[0])
@@ -1613,9 +1615,17 @@ def main_tz():
         if len(names) != 6:
             raise Untranslatable("%d count declarations" % len(names))
         ce = CountExpr(names)
+        ce.temps = {}
         rejects, order = [], []
         for x in st[after:]:
             k = x.get("kind")
+            if k == "DeclStmt" and len(kids(x)) == 1 and kids(x)[0].get("kind") == "VarDecl" and kids(kids(x)[0]) and \
+               base_type(kids(x)[0].get("type", {}).get("qualType", "")) in INT32 + INT64 + ("int32_t", "size_t"):
+                try:
+                    ce.temps[kids(x)[0]["name"]] = ce.tr(kids(kids(x)[0])[0])
+                except Untranslatable:
+                    pass
+                continue
             if k == "IfStmt" and len(kids(x)) == 2 and is_return_false(kids(x)[1]):
                 if order:
                     raise Untranslatable("a rejection test after the first read")
